@@ -285,12 +285,11 @@ func (db *DB) ListKeys() [][]byte {
 	iterator := db.index.Iterator(false)
 	defer iterator.Close()
 	verifPoint("listkeys.snapshot", 0)
-	keys := make([][]byte, db.index.Size())
-	var idx int
+	// 迭代器是创建时刻的快照, 其元素个数与此刻索引的元素个数无关, 不能按后者预先确定长度
+	keys := make([][]byte, 0, db.index.Size())
 	// 直接通过迭代器遍历获取所有 key
 	for iterator.Rewind(); iterator.Valid(); iterator.Next() {
-		keys[idx] = iterator.Key()
-		idx++
+		keys = append(keys, iterator.Key())
 	}
 	return keys
 }
